@@ -111,6 +111,19 @@ def build(thorough):
     for i in range(6):
         obs.append(Ob(f'stream_edit[first={i}]', 'C03_stream.py', 'stream_edit', T, env=dict(VH_I1=i)))
     obs.append(Ob('stream_edit__twin', 'C03_stream.py', 'stream_edit__twin', 150, kind='twin', env={}))
+    # ---- model level: regeneration of an unmodified model / single-component edits keep the unrelated records
+    EDITS = {0: 'none', 1: 'theta-init', 2: 'description', 3: 'sigma-init', 4: 'pk-statement'}
+    for ed, en in EDITS.items():
+        if thorough:
+            for s0 in range(4):
+                obs.append(Ob(f'model_regen[edit={en},sizes={s0},all slots]', 'C03_model.py', 'model_regen', 900,
+                              env=dict(VH_EDIT=ed, VH_S0=s0, VH_GROUP='all')))
+        else:
+            for g in ('head', 'params'):
+                obs.append(Ob(f'model_regen[edit={en},vary={g}]', 'C03_model.py', 'model_regen', max(T, 240),
+                              env=dict(VH_EDIT=ed, VH_GROUP=g)))
+    obs.append(Ob('model_regen__twin', 'C03_model.py', 'model_regen__twin', 150, kind='twin',
+                  env=dict(VH_EDIT=1, VH_GROUP='head')))
     # ---- twins
     for p in (ALL_PARSERS if thorough else QUICK_PARSERS):
         obs.append(Ob(f'roundtrip__twin[{p}]', HP, 'roundtrip__twin', 150, kind='twin',
@@ -129,7 +142,8 @@ def build(thorough):
     def cost(o):
         if o.kind == 'twin':
             return 9
-        if 'update_statements' in o.name or 'whole_tree' in o.name or 'len=4' in o.name or 'len=5' in o.name:
+        if 'update_statements' in o.name or 'whole_tree' in o.name or 'len=4' in o.name or 'len=5' in o.name \
+                or 'model_regen' in o.name:
             return 0
         return 1
     obs.sort(key=cost)
